@@ -472,10 +472,16 @@ func (st *c03State) callback(a Action) {
 	}
 	cr := simrt.NewRand(uint64(a.D) + 3)
 	var sent world.Sent
+	// (complete callbacks only) some of the text fields carry a NUL in the middle. Not the names of
+	// downloads: a file of that name cannot be created, and the open is refused with an error
+	sent.NUL = a.A <= 1 && a.D%5 == 3 && cb.Name != "beacon-file-open" && cb.Name != "fs-download-open"
 	var marks []world.PBMark
 	world.MarkTrace = &marks
 	body := cb.Build(cr, &sent)
 	world.MarkTrace = nil
+	if sent.NULs > 0 {
+		res.Probe("strings-with-a-nul-inside")
+	}
 	variant := a.A
 	extra := 0
 	if len(a.L) > 0 {
